@@ -41,7 +41,7 @@ ASSUMPTIONS = [
     'a read request that does not fit into the memory fails (error status) and the element is not called back',
     'float fields are float32-representable and not signalling NaNs',
 ]
-PROVED = ('Histories on one I2CElement/OWElement object (any sequence of update/write_data/disconnect, device image changing in between): the verdict of an update() is the verdict of that read alone, never a value left from an earlier read; pending implies not valid. For all representable contents: EEPROM (v0/v1) and 1-wire images written by the library parse back to '
+PROVED = ('Write histories: trajectory pieces, timing list and LED objects are their fields only, so the k-th write of any history is the image of the current fields (C14_layout_write_history_stateless), a compressed trajectory body is read back segment by segment. Histories on one I2CElement/OWElement object (any sequence of update/write_data/disconnect, device image changing in between): the verdict of an update() is the verdict of that read alone, never a value left from an earlier read; pending implies not valid. For all representable contents: EEPROM (v0/v1) and 1-wire images written by the library parse back to '
           'equal content, valid and complete; valid is True exactly when token/version/checksum resp. both CRCs '
           'match; any single corrupted EEPROM byte other than the version byte is detected; the exact condition under '
           'which a version byte 1->0 escapes (F14b); lighthouse geometry/calibration memory layouts and file objects, '
@@ -2711,7 +2711,7 @@ def led_hist_impl(h, quirk_set_zero=False):
 
 def whist_tie(ctx, cases):
     rng = ctx.rng
-    n = ctx.scale(50, 600)
+    n = ctx.scale(36, 600)
     for i in range(n):
         h = traj_rnd_history(rng)
         got = traj_hist_impl(h)
